@@ -48,7 +48,9 @@ OBLIGATIONS = [
     "VgiVerif.C33.Loop.C33_shutdown_trace",
     "VgiVerif.C33.Launch.C33_launch_shape",
     "VgiVerif.C33.Launch.C33_launch_structure",
+    "VgiVerif.C33.Launch.C33_tcp_startup_order",
     "VgiVerif.C33.Launch.C33_lock_mutex",
+    "VgiVerif.C33.Launch.C33_startup_covered",
     "VgiVerif.C33.Launch.C33_single_spawn_partial",
     "VgiVerif.C33.Launch.C33_accepting_partial",
     "VgiVerif.C33.Launch.C33_accepting_step",
@@ -62,7 +64,9 @@ TRUSTED = [
     "harness fakes: listening socket (accept with timeout, FIFO backlog), server.serve (lasts until the client closes), "
     "FileLock (inode protocol read off filelock 3.32: open(O_CREAT), non-blocking flock, st_nlink re-check, no unlink on "
     "release; polling replaced by a blocking wait), _probe (connect succeeds iff the path names an accepting worker), "
-    "_spawn_worker (atomic start-up: refuse if somebody listens, replace a stale socket, bind, accepting), in-memory os/Path",
+    "_spawn_worker (Popen = a scheduler thread running the REAL serve_unix over a fake `socket` module: _check_no_existing_listener, "
+    "_unlink_stale_unix_socket, bind, listen, on_bound are separate scheduling points; returns on the on_bound announcement), "
+    "_serve_socket_threaded inside that worker (replaced by the lease abstraction proved in (b)), in-memory os/Path",
     "the launcher model's worker is the abstraction proved in (b): it stops accepting only `idle` after its last connection "
     "(a probe is a connection)",
     "harness/common/detsched.py: one real OS thread runs at a time; scheduling points at every fake primitive / file-system operation",
@@ -73,9 +77,9 @@ PARTIAL = [
     "the socket of a successor worker are excluded (open finding C33:exit-unlink-clobber:*, witness in Findings/C33.lean)",
     "real flock/inode semantics are abstracted to the protocol above; with a filelock lacking the st_nlink re-check (allowed by "
     "`filelock>=3.13`) gc_state_dir's unlink of the held lock file lets two launchers in (Findings: no_nlink_check_double_spawn)",
-    "process start-up is atomic in the model (the real worker probes, unlinks, binds and prints `UNIX:` in several steps); a worker "
-    "whose accept loop has left but whose listening socket is not yet closed still completes connect() from the kernel listen "
-    "backlog — `alive` is read as `accepting`, and that window (no joins when conn_count = 0) is not modelled",
+    "a worker whose accept loop has left but whose listening socket is not yet closed still completes connect() from the kernel "
+    "listen backlog — `alive` is read as `accepting`, and that window (no joins when conn_count = 0) is not modelled; the worker's "
+    "process creation and interpreter start-up before serve_unix are one step (`Popen`)",
     "accept() raising OSError (listener broken from outside) ends the loop without being an idle shutdown: outside the property",
     "serve_named_pipe (Windows) has a sibling loop with a different shutdown protocol; not modelled, not runnable here",
     "preemption inside a single bytecode / C call is not explored",
@@ -142,14 +146,14 @@ class _StallChooser:
         return c
 
 
-def stall_runs(ds: DetSched, setup: Any, n: int) -> Any:
+def stall_runs(ds: DetSched, setup: Any, n: int, victims: Any = range(0, 8), afters: Any = range(0, 64)) -> Any:
     """Up to n runs of the stall family, (after, victim) in lexicographic order; replayable through `run.schedule`."""
     runner = getattr(ds, "_run", None)
     if runner is None:  # pragma: no cover - detsched internals changed: the sweep is skipped, explore() still runs
         return
     k = 0
-    for after in range(0, 64):
-        for victim in range(0, 8):
+    for after in afters:
+        for victim in victims:
             if k >= n:
                 return
             k += 1
@@ -785,6 +789,7 @@ class _World:
         self.workers: list[dict[str, Any]] = []
         self.per_ep_workers: dict[str, int] = {}
         self.spawn_count = 0
+        self.worker_by_tid: dict[int, dict[str, Any]] = {}
         self.nlink_check = cfg.get("nlink", True)
 
     def ino(self) -> int:
@@ -864,6 +869,9 @@ class _FakeOs:
         w.ds.emit("fs-unlink", p, e is not None, own)
         if e is None:
             raise FileNotFoundError(p)
+
+    def umask(self, m: int) -> int:
+        return 0o022
 
     def getcwd(self) -> str:
         return "/cwd"
@@ -992,34 +1000,113 @@ class _FakeProc:
 
 
 def _fake_spawn_worker(worker_argv: list[str], sock_path: str, idle_timeout: float, worker_stderr: Any, startup_timeout: float) -> _FakeProc:
-    """Atomic worker start-up: serve_unix refuses when somebody is listening (`_check_no_existing_listener`), replaces a
-    stale socket, binds, listens, prints `UNIX:<path>`."""
+    """`subprocess.Popen` + reading the worker's stdout: the worker "process" is a scheduler thread that runs the REAL
+    `serve_unix` (start-up: `_check_no_existing_listener`, `_unlink_stale_unix_socket`, bind, listen, `on_bound`; exit:
+    close, `_unlink_bound_unix_socket`) over a fake `socket` module; this function returns when the worker has written its
+    `UNIX:<path>` announcement (the `on_bound` callback) and raises when the worker died before that."""
     w = _World.current
     assert w is not None
     ds = w.ds
-    ds.point(what=f"spawn {sock_path}")
+    ds.point(what=f"popen {sock_path}")
     w.spawn_count += 1
-    cur = w.sock_worker(sock_path)
-    if w.spawn_count in w.cfg.get("spawn_fail", []) or (cur is not None and cur["accepting"]):
-        ds.emit("spawn-fail", sock_path)
+    if w.spawn_count in w.cfg.get("spawn_fail", []):
+        ds.emit("spawn-fail", sock_path)  # the process could not even be started
         raise RuntimeError("worker exited before readiness (rc=1)")
     ep = _endpoint(sock_path)
     wid = w.per_ep_workers.get(ep, 0)
     w.per_ep_workers[ep] = wid + 1
-    wk = {"wid": wid, "ep": ep, "path": sock_path, "accepting": True, "quiet": ds.now(), "ino": w.ino()}
-    w.fs[sock_path] = {"kind": "sock", "ino": wk["ino"], "worker": wk}
+    wk = {"wid": wid, "ep": ep, "path": sock_path, "accepting": False, "announced": False, "dead": False, "quiet": ds.now(),
+          "ino": None, "ready_at": None}
     w.workers.append(wk)
     ds.emit("spawn", sock_path, wid)
     child = ds.spawn(_worker_main, ds, w, wk, name=f"worker-{ep}-{wid}", daemon=True)
+    w.worker_by_tid[child] = wk
     ds.emit("worker-thread", child, ep, wid)
+    ds.point(lambda: wk["announced"] or wk["dead"], None, f"read stdout of worker {wid}")
+    if not wk["announced"]:
+        ds.emit("spawn-fail", sock_path)
+        raise RuntimeError("worker exited before readiness (rc=1)")
+    # the moment since which the worker has been ready, as far as this launcher can know: the announcement, if the socket
+    # was listening by then; now otherwise
+    ds.emit("spawn-ready", sock_path, wid, wk["ready_at"])
     return _FakeProc(1000 + len(w.workers))
 
 
-def _worker_main(ds: DetSched, w: _World, wk: dict[str, Any]) -> None:
-    """A worker idles out `idle` after its last connection (what (b) proves about the real accept loop), then runs the REAL
-    exit-time cleanup of serve_unix: close the listener, `_unlink_bound_unix_socket(path, identity)`."""
-    import vgi_rpc.rpc._transport as T
+class _FakeSock:
+    """`socket.socket` inside _transport.py for the worker threads: bind / listen / close act on the in-memory world;
+    `connect` is the liveness probe of `_check_no_existing_listener`."""
 
+    def __init__(self, *a: Any, **k: Any) -> None:
+        self.wk: dict[str, Any] | None = None
+
+    def _me(self) -> tuple[_World, dict[str, Any]]:
+        w = _World.current
+        assert w is not None
+        return w, w.worker_by_tid[w.ds.tid()]
+
+    def connect(self, path: Any) -> None:
+        w, me = self._me()
+        p = str(path)
+        w.ds.point(what=f"connect {p}")
+        e = w.fs.get(p)
+        tgt = None if e is None or e["kind"] != "sock" else e["worker"]
+        ok = tgt is not None and tgt["accepting"]
+        w.ds.emit("sock-connect", p, me["wid"], ok)
+        if e is None:
+            raise FileNotFoundError(p)
+        if not ok:
+            raise ConnectionRefusedError(p)
+
+    def bind(self, path: Any) -> None:
+        w, me = self._me()
+        p = str(path)
+        w.ds.point(what=f"bind {p}")
+        if p in w.fs:
+            w.ds.emit("w-bind-failed", me["ep"], me["wid"])
+            raise OSError(98, "Address already in use")
+        me["ino"] = w.ino()
+        w.fs[p] = {"kind": "sock", "ino": me["ino"], "worker": me}
+        self.wk = me
+        w.ds.emit("w-bind", me["ep"], me["wid"])
+
+    def listen(self, backlog: int = 0) -> None:
+        w, me = self._me()
+        w.ds.point(what=f"listen {me['wid']}")
+        me["accepting"] = True
+        me["quiet"] = w.ds.now()
+        w.ds.emit("w-listen", me["ep"], me["wid"])
+
+    def close(self) -> None:
+        w = _World.current
+        if w is not None and self.wk is not None:
+            w.ds.point(what=f"close {self.wk['wid']}")
+            self.wk["accepting"] = False
+            w.ds.emit("w-close", self.wk["ep"], self.wk["wid"])
+
+    def settimeout(self, t: Any) -> None:
+        pass
+
+    def setsockopt(self, *a: Any) -> None:
+        pass
+
+
+class _FakeSocketMod:
+    def __init__(self) -> None:
+        import socket as _real
+
+        self._real = _real
+        self.socket = _FakeSock
+
+    def __getattr__(self, name: str) -> Any:
+        return getattr(self._real, name)
+
+
+def _fake_accept_loop(server: Any, sock: _FakeSock, max_connections: Any, idle_timeout: Any, transport_factory: Any, prefix: str) -> None:
+    """`_serve_socket_threaded` as the launcher world sees it — the abstraction proved in (b): the worker keeps accepting
+    until `idle_timeout` after its last connection (the launcher's probes are connections), then leaves."""
+    w = _World.current
+    assert w is not None and sock.wk is not None
+    ds, wk = w.ds, sock.wk
     while True:
         due = wk["quiet"] + w.idle
         ds.point(lambda: ds.now() >= wk["quiet"] + w.idle, due, f"worker-idle {wk['wid']}")
@@ -1027,7 +1114,23 @@ def _worker_main(ds: DetSched, w: _World, wk: dict[str, Any]) -> None:
             break
     wk["accepting"] = False
     ds.emit("w-exit", wk["ep"], wk["wid"])
-    T._unlink_bound_unix_socket(wk["path"], (1, wk["ino"]))
+
+
+def _worker_main(ds: DetSched, w: _World, wk: dict[str, Any]) -> None:
+    import vgi_rpc.rpc._transport as T
+
+    def announce(path: str) -> None:  # run_server's on_bound: `print(f"UNIX:{path}", flush=True)`
+        ds.point(what=f"announce {wk['wid']}")
+        wk["announced"] = True
+        wk["ready_at"] = ds.now() if wk["accepting"] else None
+        ds.emit("w-announce", wk["ep"], wk["wid"])
+
+    try:
+        T.serve_unix(None, wk["path"], threaded=True, idle_timeout=w.idle, on_bound=announce)
+    except Exception as e:  # noqa: BLE001 - a worker that dies is an observation (`_check_no_existing_listener`, bind)
+        wk["dead"] = True
+        wk["accepting"] = False
+        ds.emit("w-dead", wk["ep"], wk["wid"], type(e).__name__)
     ds.emit("w-gone", wk["ep"], wk["wid"])
 
 
@@ -1057,7 +1160,7 @@ def launch_sched(T: Any, L: Any, cfg: dict[str, Any]) -> tuple[DetSched, Any]:
     ds = DetSched(step_limit=20000, wall_limit=30.0, trace_time=False)
     fos = _FakeOs()
     ds.patch(L, "threading", "time", os=fos, Path=_FakePath, FileLock=_FakeFileLock, _probe=_fake_probe, _spawn_worker=_fake_spawn_worker)
-    ds.patch(T, os=fos)
+    ds.patch(T, os=fos, socket=_FakeSocketMod(), _serve_socket_threaded=_fake_accept_loop)
 
     def setup(ds_: DetSched) -> Any:
         w = _World(ds_, cfg)
@@ -1080,6 +1183,7 @@ def launch_truth(cfg: dict[str, Any], run: Any) -> dict[str, Any]:
     own: dict[int, str] = {}
     raised: list[str] = []
     worker_tid: dict[int, tuple[str, int]] = {}
+    exited: set[int] = set()
     violations: list[tuple[str, str]] = []
     clobbered = False
     for ev in run.trace:
@@ -1098,13 +1202,17 @@ def launch_truth(cfg: dict[str, Any], run: Any) -> dict[str, Any]:
             alive = accepting.setdefault(name, set())
             if alive:
                 violations.append(("spawn-while-alive", f"worker {ev[3]} of endpoint {name} spawned at t={now} while worker(s) "
-                                   f"{sorted(alive)} of the same endpoint were accepting"))
-            alive.add(ev[3])
-            decided[tid] = now
-        elif k == "w-exit":
-            accepting.setdefault(ev[2], set()).discard(ev[3])
-        elif k == "fs-unlink" and tid in worker_tid and ev[3] and ev[4] is not None and ev[4] != worker_tid[tid][1]:
-            clobbered = True
+                                   f"{sorted(alive)} of the same endpoint were alive (accepting or starting up)"))
+            alive.add(ev[3])  # alive from the creation of the process …
+        elif k == "spawn-ready":
+            decided[tid] = units(ev[4]) if ev[4] is not None else now
+        elif k in ("w-exit", "w-dead"):
+            accepting.setdefault(ev[2], set()).discard(ev[3])  # … until it stops accepting (or dies during start-up)
+            if k == "w-exit":
+                exited.add(tid)
+        elif (k == "fs-unlink" and tid in worker_tid and tid in exited and ev[3] and ev[4] is not None
+              and ev[4] != worker_tid[tid][1]):
+            clobbered = True  # an EXIT-time unlink removed another worker's socket
         elif k == "launch-ret":
             t0 = decided.get(tid)
             if not ev[4] and (t0 is None or now < t0 + cfg["idle"]):
@@ -1124,6 +1232,7 @@ def launch_analyse(cfg: dict[str, Any], run: Any) -> dict[str, Any]:
     cur_ep: dict[int, str | None] = {}  # launcher thread -> endpoint it is launching (None while outside launch())
     episode: dict[tuple[int, str], dict[str, Any]] = {}  # (thread, endpoint) -> current episode
     worker_tid: dict[int, tuple[str, int]] = {}
+    wphase: dict[int, str] = {}  # worker thread -> where it is in serve_unix (check, clear, bind, bound, run, exit, exit-stat, gone, dead)
     launches = 0
     launch_threads: set[int] = set()
     violations: list[tuple[str, str]] = []
@@ -1208,16 +1317,37 @@ def launch_analyse(cfg: dict[str, Any], run: Any) -> dict[str, Any]:
             ep = ep_of(name)
             if tid in worker_tid:
                 epn, wid = worker_tid[tid]
+                ph = wphase.get(tid, "check")
                 if k == "fs-lstat":
-                    ep["labels"].append(["wStat", wid])
+                    if ph == "check":
+                        if ev[3] is None:  # `_check_no_existing_listener`: nothing at the path
+                            ep["labels"].append(["wCheck", wid, True])
+                            wphase[tid] = "clear"
+                    elif ph == "clear":
+                        if ev[3] is None:  # `_unlink_stale_unix_socket`: nothing to remove
+                            ep["labels"].append(["wClear", wid])
+                            wphase[tid] = "bind"
+                    elif ph == "bound":
+                        pass  # `entry = os.lstat(path)` right after bind: the worker's own identity
+                    elif ph == "exit":
+                        ep["labels"].append(["wStat", wid])
+                        wphase[tid] = "exit-stat"
+                    else:
+                        anomalies.append(f"worker lstat in phase {ph}")
                 elif k == "fs-unlink":
-                    ep["labels"].append(["wUnlink", wid])
-                    worker_tid[tid] = (epn, -1 - wid)  # unlink done
+                    if ph == "clear":
+                        ep["labels"].append(["wClear", wid])
+                        wphase[tid] = "bind"
+                    elif ph == "exit-stat":
+                        ep["labels"].append(["wUnlink", wid])
+                        wphase[tid] = "gone"
+                        if ev[3] and ev[4] is not None and ev[4] != wid:
+                            ep["clobbered"] = True
+                    else:
+                        anomalies.append(f"worker unlink in phase {ph}")
                     if ev[3]:
                         ep["events"].append(["unlink"])
                         ep["path"] = None
-                        if ev[4] is not None and ev[4] != wid:
-                            ep["clobbered"] = True
                     ep["state"][0] = None
                     ep["labels"].append(["vars", *ep["state"]])
                 continue
@@ -1272,45 +1402,87 @@ def launch_analyse(cfg: dict[str, Any], run: Any) -> dict[str, Any]:
                 else:
                     anomalies.append(f"meta written in phase {e['phase']}")
             continue
-        if k in ("spawn", "spawn-fail") and isinstance(ev[2], str):
+        if k in ("spawn", "spawn-fail", "spawn-ready") and isinstance(ev[2], str):
             name = _endpoint(ev[2])
             e = episode.get((tid, name))
             ep = ep_of(name)
+            if k == "spawn-ready":
+                if e is None or e["phase"] != "waiting":
+                    anomalies.append(f"spawn-ready in phase {None if e is None else e['phase']}")
+                    continue
+                ep["labels"].append(["spawnReady", e["mt"]])
+                e["phase"] = "decided"
+                e["t0"] = units(ev[4]) if ev[4] is not None else now
+                continue
+            if k == "spawn-fail" and e is not None and e["phase"] == "waiting":
+                ep["labels"].append(["spawnFail", e["mt"]])
+                e["phase"] = "failing"
+                continue
             if e is None or e["phase"] not in ("spawn", "meta"):
                 anomalies.append(f"{k} in phase {None if e is None else e['phase']}")
                 if k == "spawn":
                     ep["events"].append(["spawn", ev[3]])
-                    ep["accepting"].add(ev[3])
                 continue
             if e["phase"] == "meta":  # explicit socket path: no meta file
                 ep["labels"].append(["writeMeta", e["mt"]])
                 ep["state"][1] = True  # the model has no meta-less launch: its `hasMeta` is only an observation
                 ep["nometa"] = True
             if k == "spawn":
-                wid = ev[3]
-                ep["labels"].append(["spawn", e["mt"], wid])
-                ep["events"].append(["spawn", wid])
-                ep["accepting"].add(wid)
-                ep["path"] = wid
-                ep["state"][0] = wid
-                e["phase"] = "decided"
-                e["t0"] = now
-                if not ep.get("nometa"):
-                    ep["labels"].append(["vars", *ep["state"]])
+                ep["labels"].append(["spawn", e["mt"], ev[3]])
+                ep["events"].append(["spawn", ev[3]])
+                e["phase"] = "waiting"
             else:
                 ep["labels"].append(["spawnFail", e["mt"]])
                 e["phase"] = "failing"
+            continue
+        if k == "sock-connect":  # `_check_no_existing_listener` of a starting worker
+            ep = ep_of(_endpoint(ev[2]))
+            if wphase.get(tid, "check") != "check":
+                anomalies.append("liveness connect outside the worker's start-up check")
+                continue
+            ep["labels"].append(["wCheck", ev[3], not ev[4]])
+            if ev[4]:
+                ep["events"].append(["exit", ev[3]])  # somebody is listening: the worker dies
+                wphase[tid] = "dead"
+            else:
+                wphase[tid] = "clear"
+            continue
+        if k in ("w-bind", "w-listen", "w-announce", "w-close", "w-dead", "w-bind-failed"):
+            ep = ep_of(ev[2])
+            wid = ev[3]
+            if k == "w-bind":
+                if wphase.get(tid) != "bind":
+                    anomalies.append(f"bind in phase {wphase.get(tid)}")
+                ep["labels"].append(["wBind", wid])
+                ep["events"].append(["bind", wid])
+                ep["path"] = wid
+                ep["state"][0] = wid
+                wphase[tid] = "bound"
+                if not ep.get("nometa"):
+                    ep["labels"].append(["vars", *ep["state"]])
+            elif k == "w-listen":
+                ep["labels"].append(["wListen", wid])
+                ep["events"].append(["ready", wid])
+            elif k == "w-announce":
+                ep["labels"].append(["wAnnounce", wid])
+            elif k == "w-dead":
+                if wphase.get(tid) != "dead":
+                    anomalies.append(f"worker {wid} died ({ev[4]}) in phase {wphase.get(tid)}")
+                wphase[tid] = "dead"
+            elif k == "w-bind-failed":
+                anomalies.append(f"worker {wid}: bind failed, the path was occupied again after the stale socket was removed")
             continue
         if k == "w-exit":
             ep = ep_of(ev[2])
             ep["labels"].append(["wExit", ev[3]])
             ep["events"].append(["exit", ev[3]])
-            ep["accepting"].discard(ev[3])
+            wphase[tid] = "exit"
             continue
         if k == "w-gone":
             ep = ep_of(ev[2])
-            if worker_tid.get(tid, ("", 0))[1] >= 0:  # no unlink happened: identity mismatch or path absent
+            if wphase.get(tid) == "exit-stat":  # no unlink happened: identity mismatch or path absent
                 ep["labels"].append(["wUnlink", ev[3]])
+            wphase[tid] = "gone"
             continue
         if k in ("launch-ret", "launch-raise"):
             name = cur_ep.get(tid)
@@ -1352,21 +1524,26 @@ def launch_analyse(cfg: dict[str, Any], run: Any) -> dict[str, Any]:
 def launcher_monitor(idle: int, events: list[list[Any]]) -> dict[str, Any]:
     """The launcher half of the property, from its text (mirror of Spec.LMon)."""
     alive: list[int] = []
+    acc: list[int] = []
     path: int | None = None
     bad_spawn = bad_ret = False
     for e in events:
         if e[0] == "spawn":
             bad_spawn = bad_spawn or bool(alive)
             alive = [e[1]] + alive
+        elif e[0] == "bind":
             path = e[1]
+        elif e[0] == "ready":
+            acc = [e[1]] + acc
         elif e[0] == "exit":
             alive = [x for x in alive if x != e[1]]
+            acc = [x for x in acc if x != e[1]]
         elif e[0] == "unlink":
             path = None
         elif e[0] == "ret":
-            ok = path is not None and path in alive
+            ok = path is not None and path in acc
             bad_ret = bad_ret or (e[2] < e[1] + idle and not ok)
-    return {"alive": alive, "path": path, "badSpawn": bad_spawn, "badRet": bad_ret}
+    return {"alive": alive, "acc": acc, "path": path, "badSpawn": bad_spawn, "badRet": bad_ret}
 
 
 def launch_judge(ctx: Any, cfg: dict[str, Any], run: Any, an: dict[str, Any], models: dict[str, Any], mons: dict[str, Any]) -> None:
@@ -1443,7 +1620,7 @@ def explore_launch(ctx: Any, T: Any, L: Any, cfg: dict[str, Any], dfs: int, boun
             for name, ep in an["eps"].items():
                 if _offgrid(ep["labels"]) or _offgrid(ep["events"]):
                     continue
-                reqs.append(("C33.launchAccepts", {"idle": cfg["idle"], "nlink": cfg.get("nlink", True), "events": ep["labels"]}))
+                reqs.append(("C33.launchAccepts", {"idle": cfg["idle"], "events": ep["labels"]}))
                 reqs.append(("C33.launchMonitor", {"idle": cfg["idle"], "events": ep["events"]}))
                 idx.append((i, name))
         res = ctx.driver.batch(reqs) if ctx.driver is not None else []
@@ -1461,8 +1638,11 @@ def explore_launch(ctx: Any, T: Any, L: Any, cfg: dict[str, Any], dfs: int, boun
         with ds:
             import itertools
 
+            nl = len(cfg["launchers"])
             for run in itertools.chain(ds.explore(setup, dfs=dfs, bound=bound, random=rnd, seed=f"{ctx.seed}:{ctx.evaluations}"),
-                                       stall_runs(ds, setup, stall)):
+                                       stall_runs(ds, setup, stall),
+                                       # worker threads (ids after the launchers') stalled deep inside their start-up / exit sequence
+                                       stall_runs(ds, setup, stall + stall // 2, victims=range(nl, nl + 3), afters=range(4, 18))):
                 batch.append((run, launch_analyse(cfg, run)))
                 n += 1
                 if len(batch) >= 200:
@@ -1493,6 +1673,11 @@ LAUNCH_CORPUS: list[dict[str, Any]] = [
     # holding it) and launcher 2 opens a's lock file around that moment — the st_nlink re-check must drop the dead inode
     {"idle": 4, "launchers": [[_l("a")], [["sleep", 5], _l("b")], [["sleep", 5], _l("a")]]},
     {"idle": 4, "launchers": [[_l("a")], [["sleep", 5], _l("b")], [["sleep", 5], _l("a")], [["sleep", 5], _l("a")]]},
+    # "launcher or client acts right after the announcement": launches queued behind the spawning one get the lock the moment
+    # it returns, while the worker may still be anywhere between its announcement and its accept loop; every launch-ret is a
+    # client connecting at once (the oracle looks at the path at that very moment)
+    {"idle": 8, "launchers": [[_l("a")], [_l("a")], [_l("a")], [_l("a")]]},
+    {"idle": 8, "launchers": [[_l("a"), _l("a"), _l("a")], [_l("a"), _l("a")]]},
     # a worker idling out exactly when the next launch arrives (exit vs probe vs stale unlink vs respawn)
     {"idle": 4, "launchers": [[_l("a"), ["sleep", 4], _l("a")]]},
     {"idle": 4, "launchers": [[_l("a")], [["sleep", 4], _l("a")], [["sleep", 4], _l("a")]]},
@@ -1622,6 +1807,6 @@ def replay(ctx: Any, case: dict[str, Any]) -> None:
         for name, ep in an["eps"].items():
             if _offgrid(ep["labels"]) or _offgrid(ep["events"]):
                 continue
-            models[name] = ctx.driver.call("C33.launchAccepts", {"idle": cfg["idle"], "nlink": cfg.get("nlink", True), "events": ep["labels"]})
+            models[name] = ctx.driver.call("C33.launchAccepts", {"idle": cfg["idle"], "events": ep["labels"]})
             mons[name] = ctx.driver.call("C33.launchMonitor", {"idle": cfg["idle"], "events": ep["events"]})
     launch_judge(ctx, cfg, r, an, models, mons)
